@@ -5,7 +5,9 @@ import PyYetiVerif.Props.C02c
 
 `fsolve_full_solves`: the zero-initialised `d` with the rigid-body, elastic and residual-flexibility
 block solutions scattered into it (`assemble`, in the order of the source, index vectors in any
-order) satisfies `partStiff · d = F` — the full-size matrix that is `−Ω²M` on the rigid-body block,
+order) satisfies `partStiff · d = F` — the full-size matrix that is `iΩ Brb − Ω²M` on the rigid-body block
+(`Brb`: the damping the rigid-body block is solved with — the diagonal of `b` on the uncoupled path,
+zero on the coupled path),
 `K − Ω²M + iΩB` on the elastic block, `K` on the residual-flexibility block and zero between the
 partitions — given the three block equations.  The block equations are what `frfRb_solves`,
 `frfUnc_solves` / `frfCoupled_solves` and `rf_rows` give per block; `rbBlock_solves`,
@@ -21,19 +23,21 @@ open PyYetiVerif.Freq
 section full
 variable {α : Type} [Field α]
 
-/-- **`fsolve_full_solves`** -/
-theorem fsolve_full_solves (n : Nat) (i w : α) (M B K : Nat → Nat → α) (F : Nat → α)
+/-- row by row: a row satisfies the full-size equation as soon as *its own* block equation holds (the
+elastic and residual-flexibility block equations are given; the rigid-body one is asked for the row
+at hand only — at `Ω = 0` it does not hold, and the rows outside the rigid-body set do not need it) -/
+theorem fsolve_full_rows (n : Nat) (i w : α) (M Brb B K : Nat → Nat → α) (F : Nat → α)
     (rb el rf : List Nat) (hperm : (rb ++ el ++ rf).Perm (List.range n))
     (vrb vel vrf : List (Dva α))
     (hlrb : rb.length = vrb.length) (hlel : el.length = vel.length) (hlrf : rf.length = vrf.length)
-    (hrb : ∀ r ∈ rb, blockSum (fun r c => -(w * w) * M r c) rb (vrb.map (·.d)) r = F r)
     (hel : ∀ r ∈ el, blockSum (fun r c => i * B r c * w + K r c - M r c * (w * w)) el
       (vel.map (·.d)) r = F r)
     (hrf : ∀ r ∈ rf, blockSum K rf (vrf.map (·.d)) r = F r) :
     ∀ r, r < n →
+      (r ∈ rb → blockSum (fun r c => i * Brb r c * w - M r c * (w * w)) rb (vrb.map (·.d)) r = F r) →
       ((List.range n).map fun c =>
-        partStiff i w M B K rb el rf r c * (rowOf (assemble n rf vrf rb vrb el vel) c).d).sum = F r := by
-  intro r hr
+        partStiff i w M Brb B K rb el rf r c * (rowOf (assemble n rf vrf rb vrb el vel) c).d).sum = F r := by
+  intro r hr hrb
   obtain ⟨_, _, hgrb, hgel, hgrf⟩ := scatter_covers n rb el rf hperm vrb vel vrf hlrb hlel hlrf
   set sol := assemble n rf vrf rb vrb el vel with hsol
   have hnd : (rb ++ el ++ rf).Nodup := hperm.nodup_iff.2 List.nodup_range
@@ -63,35 +67,35 @@ theorem fsolve_full_solves (n : Nat) (i w : α) (M B K : Nat → Nat → α) (F 
   rcases List.mem_append.1 hr' with hr' | hrrf
   · rcases List.mem_append.1 hr' with hrrb | hrel
     · -- a rigid-body row
-      have e1 : (rb.map fun c => partStiff i w M B K rb el rf r c * (rowOf sol c).d) =
-          rb.map fun c => (-(w * w) * M r c) * (rowOf sol c).d := by
+      have e1 : (rb.map fun c => partStiff i w M Brb B K rb el rf r c * (rowOf sol c).d) =
+          rb.map fun c => (i * Brb r c * w - M r c * (w * w)) * (rowOf sol c).d := by
         apply List.map_congr_left
         intro c hc
         simp [partStiff, hrrb, hc]
-      have e2 : (el.map fun c => partStiff i w M B K rb el rf r c * (rowOf sol c).d).sum = 0 := by
+      have e2 : (el.map fun c => partStiff i w M Brb B K rb el rf r c * (rowOf sol c).d).sum = 0 := by
         apply sum_map_zero
         intro c hc
         have : c ∉ rb := fun h => hd1 c h hc
         simp [partStiff, hrrb, this, hd1 r hrrb, hd2 r hrrb]
-      have e3 : (rf.map fun c => partStiff i w M B K rb el rf r c * (rowOf sol c).d).sum = 0 := by
+      have e3 : (rf.map fun c => partStiff i w M Brb B K rb el rf r c * (rowOf sol c).d).sum = 0 := by
         apply sum_map_zero
         intro c hc
         have : c ∉ rb := fun h => hd2 c h hc
         simp [partStiff, hrrb, this, hd1 r hrrb, hd2 r hrrb]
-      rw [e1, e2, e3, hblock rb vrb hlrb hgrb (fun r c => -(w * w) * M r c) _ (fun _ => rfl),
-        hrb r hrrb]; ring
+      rw [e1, e2, e3, hblock rb vrb hlrb hgrb (fun r c => i * Brb r c * w - M r c * (w * w)) _ (fun _ => rfl),
+        hrb hrrb]; ring
     · -- an elastic row
       have hnrb : r ∉ rb := fun h => hd1 r h hrel
-      have e1 : (rb.map fun c => partStiff i w M B K rb el rf r c * (rowOf sol c).d).sum = 0 := by
+      have e1 : (rb.map fun c => partStiff i w M Brb B K rb el rf r c * (rowOf sol c).d).sum = 0 := by
         apply sum_map_zero
         intro c hc
         simp [partStiff, hnrb, hrel, hd1 c hc, hd3 r hrel]
-      have e2 : (el.map fun c => partStiff i w M B K rb el rf r c * (rowOf sol c).d) =
+      have e2 : (el.map fun c => partStiff i w M Brb B K rb el rf r c * (rowOf sol c).d) =
           el.map fun c => (i * B r c * w + K r c - M r c * (w * w)) * (rowOf sol c).d := by
         apply List.map_congr_left
         intro c hc
         simp [partStiff, hnrb, hrel, hc]
-      have e3 : (rf.map fun c => partStiff i w M B K rb el rf r c * (rowOf sol c).d).sum = 0 := by
+      have e3 : (rf.map fun c => partStiff i w M Brb B K rb el rf r c * (rowOf sol c).d).sum = 0 := by
         apply sum_map_zero
         intro c hc
         have : c ∉ el := fun h => hd3 c h hc
@@ -101,20 +105,35 @@ theorem fsolve_full_solves (n : Nat) (i w : α) (M B K : Nat → Nat → α) (F 
   · -- a residual-flexibility row
     have hnrb : r ∉ rb := fun h => hd2 r h hrrf
     have hnel : r ∉ el := fun h => hd3 r h hrrf
-    have e1 : (rb.map fun c => partStiff i w M B K rb el rf r c * (rowOf sol c).d).sum = 0 := by
+    have e1 : (rb.map fun c => partStiff i w M Brb B K rb el rf r c * (rowOf sol c).d).sum = 0 := by
       apply sum_map_zero
       intro c hc
       simp [partStiff, hnrb, hnel, hrrf, hd2 c hc]
-    have e2 : (el.map fun c => partStiff i w M B K rb el rf r c * (rowOf sol c).d).sum = 0 := by
+    have e2 : (el.map fun c => partStiff i w M Brb B K rb el rf r c * (rowOf sol c).d).sum = 0 := by
       apply sum_map_zero
       intro c hc
       simp [partStiff, hnrb, hnel, hrrf, hd3 c hc]
-    have e3 : (rf.map fun c => partStiff i w M B K rb el rf r c * (rowOf sol c).d) =
+    have e3 : (rf.map fun c => partStiff i w M Brb B K rb el rf r c * (rowOf sol c).d) =
         rf.map fun c => K r c * (rowOf sol c).d := by
       apply List.map_congr_left
       intro c hc
       simp [partStiff, hnrb, hnel, hrrf, hc]
     rw [e1, e2, e3, hblock rf vrf hlrf hgrf K _ (fun _ => rfl), hrf r hrrf]; ring
+
+/-- **`fsolve_full_solves`** -/
+theorem fsolve_full_solves (n : Nat) (i w : α) (M Brb B K : Nat → Nat → α) (F : Nat → α)
+    (rb el rf : List Nat) (hperm : (rb ++ el ++ rf).Perm (List.range n))
+    (vrb vel vrf : List (Dva α))
+    (hlrb : rb.length = vrb.length) (hlel : el.length = vel.length) (hlrf : rf.length = vrf.length)
+    (hrb : ∀ r ∈ rb, blockSum (fun r c => i * Brb r c * w - M r c * (w * w)) rb (vrb.map (·.d)) r = F r)
+    (hel : ∀ r ∈ el, blockSum (fun r c => i * B r c * w + K r c - M r c * (w * w)) el
+      (vel.map (·.d)) r = F r)
+    (hrf : ∀ r ∈ rf, blockSum K rf (vrf.map (·.d)) r = F r) :
+    ∀ r, r < n →
+      ((List.range n).map fun c =>
+        partStiff i w M Brb B K rb el rf r c * (rowOf (assemble n rf vrf rb vrb el vel) c).d).sum = F r :=
+  fun r hr => fsolve_full_rows n i w M Brb B K F rb el rf hperm vrb vel vrf hlrb hlel hlrf hel hrf r hr
+    (fun h => hrb r h)
 
 /-- on every row `v = iΩ d`, `a = −Ω² d` carries over from the blocks to the assembled column -/
 theorem fsolve_full_va (n : Nat) (i w : α) (rb el rf : List Nat)
